@@ -252,6 +252,12 @@ def _a5(ctx, R="C14-A5"):
         for t, v, _ in assigned_targets(s):
             if isinstance(t, ast.Name) and v is not None:
                 binds.setdefault(t.id, []).append(v)
+    cc = binds.get("compare_cols", [])
+    ctx.require(len(cc) == 1 and isinstance(cc[0], ast.ListComp) and len(cc[0].generators) == 1, R, "definition of compare_cols")
+    flt = [norm(i_) for i_ in cc[0].generators[0].ifs]
+    ok_cols = flt in ([], ["col_used_in_pareto(c)"]) and norm(cc[0].generators[0].iter) == "compare_to.columns"
+    ctx.check(ok_cols, R, ini, cc[0], f"reference points keep only the columns passing `{flt}`: columns that take part in the Pareto comparison (reservations when RESOURCE_USAGE is a metric, fused-loop tile shapes) are left out, "
+              "so a row that is worse in the kept columns but better in a dropped one is discarded", "reference points carry every column used in the Pareto comparison")
     apps = [c for c in ini.calls("append") if norm(c.func.value) == "self.compare_to"]
     ctx.require(len(apps) == 1 and apps[0].args, R, f"reference point construction sites {len(apps)}")
     point = apps[0].args[0]
@@ -399,6 +405,7 @@ def check(ctx):
 
 
 VARIANTS = [
+    {"kind": "F", "name": "reference-points-objectives-only", "rule": "C14-A5", "edits": [(JP, "        compare_cols = [c for c in compare_to.columns if col_used_in_pareto(c)]", "        compare_cols = [c for c in compare_to.columns if is_objective_col(c)]")]},
     {"kind": "F", "name": "make-pareto-prunes-self-when-not-inplace", "rule": "C14-A8", "edits": [("accelforge/mapper/FFM/_join_pmappings/pmapping_dataframe.py", "        new_data = makepareto(\n            self.data,\n            columns,", "        self._data = new_data = makepareto(\n            self.data,\n            columns,")]},
     {"kind": "F", "name": "fold-inside-column-loop", "rule": "C14-A5", "edits": [(JP, "                    nondominated |= edp_mapping[k] <= v\n            nondominated_by_all &= nondominated", "                    nondominated |= edp_mapping[k] <= v\n                nondominated_by_all &= nondominated")]},
     {"kind": "F", "name": "dirty-prune-in-place", "rule": "C14-A8", "edits": [(JP, "                resource_usage_tolerance=resource_usage_tolerance,\n                inplace=False,\n            ),", "                resource_usage_tolerance=resource_usage_tolerance,\n            ),")]},
